@@ -407,7 +407,7 @@ def gen_config(rng, with_fleet=False):
             if n["delays"][0] == 0 and (not n["blocking"] or n["style"] == "const"):
                 n["delays"] = [1] + n["delays"][1:]
         elif n["kind"] == "machine":
-            n["delays"] = rng.choice([[0], [1], [2], [1, 3], [0, 2, 4], [3]])
+            n["delays"] = rng.choice([[0], [1], [2], [1, 3], [0, 2, 4], [3], [5], [7]])
         else:
             n["delays"] = [0]
         if n["style"] == "const":
@@ -427,7 +427,10 @@ def gen_config_sc(rng):
         nodes.append(d)
         return len(nodes) - 1
 
-    def edge(s, d):
+    def edge(s, d, fleet_ok=False):
+        if fleet_ok and rng.random() < 0.35:
+            edges.append(dict(kind="fleet", cap=rng.choice([2, 3, 4]), fdelay=rng.choice([1, 2, 3, 5]), transit=rng.choice([0, 0, 1, 2]), src=s, dst=d))
+            return len(edges) - 1
         edges.append(dict(kind="buffer", cap=rng.choice([1, 2, 2, 3, 4]), mode=rng.choice(["FIFO", "FIFO", "LIFO"]),
                           delays=rng.choice([[0], [0], [1], [2], [0, 1]]), style=rng.choice(["const", "callable", "generator"]), src=s, dst=d))
         if edges[-1]["style"] == "const":
@@ -442,7 +445,7 @@ def gen_config_sc(rng):
         c = node("combiner", recipe=[0] + [rng.choice([1, 1, 2, 3]) for _ in range(k)])
         edge(ps, c)
         for s_ in srcs:
-            edge(s_, c)
+            edge(s_, c, fleet_ok=True)
         last = c
     if shape in ("both",) and rng.random() < 0.4:
         m = node("machine")
@@ -452,9 +455,16 @@ def gen_config_sc(rng):
         sp = node("splitter")
         edge(last, sp)
         last = sp
-    for _ in range(rng.choice([1, 1, 2])):
-        sk = node("sink")
-        edge(last, sk)
+    for _ in range(rng.choice([1, 1, 2, 2])):
+        if rng.random() < 0.5:
+            # a slow consumer behind a small buffer: congestion on this out-edge
+            m = node("machine", slow=True)
+            edge(last, m)
+            sk = node("sink")
+            edge(m, sk)
+        else:
+            sk = node("sink")
+            edge(last, sk)
     # connect order: the combiner's pallet edge must be its in-edge 0
     connects = [(i, e["src"], e["dst"]) for i, e in enumerate(edges)]
     pallet_first = [c for c in connects if nodes[c[2]]["kind"] == "combiner" and nodes[c[1]].get("pallet")]
@@ -475,10 +485,13 @@ def gen_config_sc(rng):
             n["delays"] = rng.choice([[1], [2], [1, 2], [3, 1, 1], [2, 5]])
         elif n["kind"] in ("machine", "splitter", "combiner"):
             n["delays"] = rng.choice([[0], [1], [2], [1, 3], [0, 2]])
+            if n.get("slow"):
+                n["delays"] = rng.choice([[4], [6], [3, 7]])
         else:
             n["delays"] = [0]
         if n["style"] == "const":
             n["delays"] = n["delays"][:1]
+        n.pop("slow", None)
     order = ["N%d" % i for i in range(len(nodes))] + ["E%d" % i for i in range(len(edges))]
     rng.shuffle(order)
     return dict(model="factory", T=rng.choice([15, 25, 40]), nodes=nodes, edges=edges, connects=connects, order=order)
